@@ -457,11 +457,16 @@ class TaskPool:
             and self.runahead_limit_point is not None
             and (
                 base_point == self._prev_runahead_base_point
-                or self.runahead_limit_point == self.stop_point
+                or (
+                    self.runahead_limit_point == self.stop_point
+                    and base_point > self._prev_runahead_base_point
+                )
             )
         ):
             # No need to recompute the list of points if the base point did not
-            # change or the runahead limit is already at stop point.
+            # change or the runahead limit is already at stop point (and the
+            # base point has not moved back: a task with a future trigger
+            # can be spawned at an earlier cycle than the rest of the pool).
             return False
 
         # Now generate all possible cycle points from the base point and stop
